@@ -50,7 +50,23 @@ def _none_constraints(names: list[str]) -> list[tuple[str, str]]:
     return out
 
 
+def _src(f: Formula, idx: dict[str, int]) -> str:
+    tag = f[0]
+    if tag == "const":
+        return "True" if f[1] else "False"
+    if tag == "atom":
+        return f"e[{idx[f[1]]}]"
+    if tag == "not":
+        return f"(not {_src(f[1], idx)})"
+    sep = " and " if tag == "and" else " or "
+    return "(" + sep.join(_src(g, idx) for g in f[1]) + ")" if f[1] else ("True" if tag == "and" else "False")
+
+
+_sat_cache: dict[str, bool] = {}
+
+
 def sat(f: Formula, constraints: Formula = TRUE) -> bool:
+    """Satisfiability by enumeration of the atoms (formulas are compiled to Python expressions; results are cached)."""
     if f == FALSE or constraints == FALSE:
         return False
     names = sorted(atoms_of(f) | atoms_of(constraints))
@@ -58,14 +74,26 @@ def sat(f: Formula, constraints: Formula = TRUE) -> bool:
         return evaluate(f, {}) and evaluate(constraints, {})
     if len(names) > MAX_ATOMS:
         raise AnalysisError(f"path condition over {len(names)} atoms exceeds the enumeration bound {MAX_ATOMS}")
-    excl = _none_constraints(names)
-    for values in itertools.product([False, True], repeat=len(names)):
-        env = dict(zip(names, values))
-        if any(env[a] and env[b] for a, b in excl):
-            continue
-        if evaluate(constraints, env) and evaluate(f, env):
-            return True
-    return False
+    idx = {n: i for i, n in enumerate(names)}
+    parts = [_src(f, idx)]
+    if constraints != TRUE:
+        parts.append(_src(constraints, idx))
+    for a, b in _none_constraints(names):
+        parts.append(f"(not (e[{idx[a]}] and e[{idx[b]}]))")
+    src = " and ".join(parts)
+    ck = f"{len(names)}|{src}"
+    hit = _sat_cache.get(ck)
+    if hit is not None:
+        return hit
+    fn = eval("lambda e: " + src)  # noqa: S307 - the source is generated above from formula constructors only (e[i] / and / or / not)
+    res = False
+    for values in itertools.product((False, True), repeat=len(names)):
+        if fn(values):
+            res = True
+            break
+    if len(_sat_cache) < 20000:
+        _sat_cache[ck] = res
+    return res
 
 
 def implies(a: Formula, b: Formula, constraints: Formula = TRUE) -> bool:
@@ -548,11 +576,13 @@ class Sym:
         if len(cls) >= 1:
             impls = []
             for ci in cls:
-                m = self.repo.lookup_method(ci, attr)
-                if m is not None and m not in impls:
-                    impls.append(m)
-            if len(impls) == 1 and not isinstance(base, Opq) or (len(impls) == 1 and len(cls) == 1 and len(self.repo.implementations(cls[0], attr)) == 1):
-                m = impls[0]
+                found = [m for m in self.repo.implementations(ci, attr)] if isinstance(base, Opq) else [self.repo.lookup_method(ci, attr)]
+                for m in found:
+                    if m is not None and m not in impls:
+                        impls.append(m)
+            concrete = [m for m in impls if not m.is_abstract] or impls
+            if len(concrete) == 1:
+                m = concrete[0]
                 if m.is_property:
                     return self.call_function(m, base, [], {}, st, None, ctx)
                 return FnV(m, base if not m.is_staticmethod else None)
